@@ -22,3 +22,21 @@ Theorem C10_szdd_bad_signature_refused : forall (o : oracle) m fh buf,
   fst (fst (fst (fst (run o m (read_headers fh))))) = MSPACK_ERR_SIGNATURE.
 Proof. exact szdd_bad_signature_refused. Qed.
 Print Assumptions C10_szdd_bad_signature_refused.
+
+(* ---- the KWAJ front end.  [rep okN false p] (Proofs/Rep.v): on every path of p, a host failure on the way makes the result non-OK ---- *)
+From MSP Require Import L2.Kwaj Proofs.Rep Proofs.KwajC10.
+Theorem C10_kwaj_decompress_reports_failures : forall junk fuel (lzh mszip : handle -> handle -> prog N),
+  (forall fh oh, rep okN false (lzh fh oh)) -> (forall fh oh, rep okN false (mszip fh oh)) ->
+  forall o : oracle,
+  let '((e, le), m) := run o mon0 (kscript_decompress junk fuel lzh mszip) in
+  le = e /\ (e = MSPACK_ERR_OK -> hfail m = false).
+Proof. exact kwaj_decompress_reports_failures. Qed.
+Print Assumptions C10_kwaj_decompress_reports_failures.
+Theorem C10_kwaj_bad_signature_refused : forall (o : oracle) m h0 buf,
+  o (nxt m) (CRead (kfh h0) (Z.of_N kwajh_SIZEOF)) = RBytes buf -> length buf = N.to_nat kwajh_SIZEOF ->
+  (le32 buf 0 =? 1245796171) && (le32 buf 4 =? 3509055624) = false ->
+  fst (fst (run o m (read_headers h0))) = MSPACK_ERR_SIGNATURE.
+Proof. exact kwaj_bad_signature_refused. Qed.
+Print Assumptions C10_kwaj_bad_signature_refused.
+Example C10_kwaj_bodies_exist : forall fh oh, rep okN false (no_body fh oh).
+Proof. intros. cbn. discriminate. Qed.
